@@ -181,7 +181,20 @@ static std::string handle_bg(const std::vector<std::string> &t)
   return vh::join(outs, " ; ");
 }
 
-static bool make_composite(const std::string &plist, nostd::shared_ptr<cprop::TextMapPropagator> &out)
+static cprop::TextMapPropagator *make_part(const std::string &n)
+{
+  if (n == "w3c") return new tprop::HttpTraceContext();
+  if (n == "b3s") return new tprop::B3Propagator();
+  if (n == "b3m") return new tprop::B3PropagatorMultiHeader();
+  if (n == "jg") return new tprop::JaegerPropagator();
+  if (n == "bag") return new baggage::propagation::BaggagePropagator();
+  return nullptr;
+}
+
+// the composite (installed in and fetched from the global slot, as an application would) and, separately, fresh
+// instances of its parts in the same order
+static bool make_composite(const std::string &plist, nostd::shared_ptr<cprop::TextMapPropagator> &out,
+                           std::vector<std::unique_ptr<cprop::TextMapPropagator>> &parts)
 {
   std::vector<std::unique_ptr<cprop::TextMapPropagator>> ps;
   if (plist != "-")
@@ -201,15 +214,13 @@ static bool make_composite(const std::string &plist, nostd::shared_ptr<cprop::Te
     names.push_back(cur);
     for (auto &n : names)
     {
-      if (n == "w3c") ps.emplace_back(new tprop::HttpTraceContext());
-      else if (n == "b3s") ps.emplace_back(new tprop::B3Propagator());
-      else if (n == "b3m") ps.emplace_back(new tprop::B3PropagatorMultiHeader());
-      else if (n == "jg") ps.emplace_back(new tprop::JaegerPropagator());
-      else if (n == "bag") ps.emplace_back(new baggage::propagation::BaggagePropagator());
-      else return false;
+      auto *a = make_part(n);
+      auto *b = make_part(n);
+      if (!a || !b) return false;
+      ps.emplace_back(a);
+      parts.emplace_back(b);
     }
   }
-  // go through the global slot as an application would
   cprop::GlobalTextMapPropagator::SetGlobalPropagator(
       nostd::shared_ptr<cprop::TextMapPropagator>(new cprop::CompositePropagator(std::move(ps))));
   out = cprop::GlobalTextMapPropagator::GetGlobalPropagator();
@@ -238,11 +249,8 @@ static std::string show_carrier(const std::map<std::string, std::string> &m)
   return s;
 }
 
-static std::string do_extract(cprop::TextMapPropagator &p, ExactCarrier &c)
+static std::string describe(const context::Context &ctx, const context::Context &out)
 {
-  context::Context ctx;
-  ctx       = ctx.SetValue("marker", static_cast<int64_t>(77));
-  auto out  = p.Extract(c, ctx);
   bool same = (out == ctx);
   auto mk   = out.GetValue("marker");
   if (!nostd::holds_alternative<int64_t>(mk) || nostd::get<int64_t>(mk) != 77) return "ERR marker-lost";
@@ -259,12 +267,26 @@ static std::string do_extract(cprop::TextMapPropagator &p, ExactCarrier &c)
   return "span=<" + span + "> bag=" + bag + " same=" + (same ? "1" : "0");
 }
 
+// the composite's Extract, and next to it the context threaded by hand through fresh instances of the parts
+static std::string do_extract(cprop::TextMapPropagator &p, std::vector<std::unique_ptr<cprop::TextMapPropagator>> &parts,
+                              ExactCarrier &c)
+{
+  context::Context ctx;
+  ctx           = ctx.SetValue("marker", static_cast<int64_t>(77));
+  auto out      = p.Extract(c, ctx);
+  std::string a = describe(ctx, out);
+  context::Context cur = ctx;
+  for (auto &q : parts) cur = q->Extract(c, cur);
+  return a + " parts=" + describe(ctx, cur);
+}
+
 static std::string handle_comp(const std::vector<std::string> &t)
 {
   nostd::shared_ptr<cprop::TextMapPropagator> comp;
+  std::vector<std::unique_ptr<cprop::TextMapPropagator>> parts;
   if (t.size() == 8 && (t[1] == "inject" || t[1] == "rt"))
   {
-    if (!make_composite(t[2], comp)) return "bad-op";
+    if (!make_composite(t[2], comp, parts)) return "bad-op";
     std::string tid, sid, fl, ts, bag;
     context::Context ctx;
     if (!vh::from_hex(t[6], ts) || !vh::from_hex(t[7], bag)) return "bad-op";
@@ -289,14 +311,19 @@ static std::string handle_comp(const std::vector<std::string> &t)
     }
     ExactCarrier c;
     comp->Inject(c, ctx);
-    if (t[1] == "inject") return show_carrier(c.out_);
+    if (t[1] == "inject")
+    {
+      ExactCarrier m;  // every part by hand, in order, same context
+      for (auto &q : parts) q->Inject(m, ctx);
+      return show_carrier(c.out_) + " parts=" + show_carrier(m.out_);
+    }
     ExactCarrier c2;
     for (auto &kv : c.out_) c2.Put(kv.first, kv.second);
-    return do_extract(*comp, c2);
+    return do_extract(*comp, parts, c2);
   }
   if (t.size() == 11 && t[1] == "extract")
   {
-    if (!make_composite(t[2], comp)) return "bad-op";
+    if (!make_composite(t[2], comp, parts)) return "bad-op";
     static const char *names[8] = {"traceparent", "tracestate", "b3", "X-B3-TraceId", "X-B3-SpanId",
                                    "X-B3-Sampled", "uber-trace-id", "baggage"};
     ExactCarrier c;
@@ -306,7 +333,7 @@ static std::string handle_comp(const std::vector<std::string> &t)
       if (!vh::from_hex(t[3 + i], v)) return "bad-op";
       if (!v.empty()) c.Put(names[i], v);
     }
-    return do_extract(*comp, c);
+    return do_extract(*comp, parts, c);
   }
   return "bad-op";
 }
